@@ -124,7 +124,7 @@ func (h *Header) Contains(h2 *Header) bool {
 	for _, l2 := range h2.Links {
 		match := false
 		for _, l := range h.Links {
-			if l.Key == l2.Key && l.URL == l2.URL {
+			if l != nil && l2 != nil && *l == *l2 {
 				match = true
 				break
 			}
